@@ -238,15 +238,16 @@ CLAIMED = {
  "C19": dict(
    text="spec/Peaks.tla defines gap-threshold clustering of hits into peaks (extensions, maximum duration, area and channel cuts), "
         "merging, replacing merged peaks, the symmetric moving average, the area-fraction index, widths and area deciles (exact rationals), "
+        "highest-density regions (smallest top level set reaching the fraction, as index runs, with its amplitude), "
         "the summed waveform of a peak over two channels with per-channel gains and its down-sampling into a fixed buffer, and a "
         "transcription of local-minimum splitting; TLC enumerates every input of the scope, checks the conservation laws (area and hit "
         "count conserved, peaks ordered and disjoint, replacing keeps the other peaks untouched and ordered, summed waveform = area = "
         "sum of per-channel areas, the cuts of a split tile the parent) and prints the expected results, which are compared with "
-        "the real numba functions (find_peaks, merge_peaks, replace_merged, symmetric_moving_average, index_of_fraction, compute_widths, "
+        "the real numba functions (find_peaks, merge_peaks, replace_merged, symmetric_moving_average, index_of_fraction, compute_widths, highest_density_region, "
         "sum_waveform / store_downsampled_waveform, LocalMinimumSplitter via PeakSplitter._split_peaks). Natural-breaks splits (float "
         "goodness-of-split) are executed on every waveform of the scope and TLC judges the recorded children at the P-level (TilesParent).",
    note="Trusted: TLC, JSON transport, float comparison with tolerance. Known finding: down-sampling drops the trailing length mod factor "
-        "samples while the area keeps them. Not covered: the value of natural_breaks_gof, highest_density_region. Bounded: <=3 hits, "
+        "samples while the area keeps them. Not covered: the value of natural_breaks_gof, highest_density_region with only_upper_part=True. Bounded: <=3 hits, "
         "<=4 peaks, waveforms of <=7 samples over {0..3}, records of <=5 samples over {0..2}.",
    technique="TLA+ definitional oracle + transcription enumerated by TLC, replay of every case into the real functions; TLC-evaluated P-level on observed splits",
    design="4/C19"),
